@@ -117,11 +117,17 @@ class V(steps.Visitor):
 
 
 def run(tier, seed):
-    depth = 1 if tier == "quick" else 2
+    # every node x every configuration is snapshotted, so the closure is kept at depth 1 over the full start set;
+    # depth 2 runs over the quick start set (thorough) or the reduced one (quick)
+    depth = 1
     t1, h1 = steps.start_texts(tier, "expr")
     t2, h2 = steps.start_texts(tier, "eqn")
     texts = t1[:h1] + t2[:h2] + t1[h1:] + t2[h2:]
     acc = steps.run(V, texts, depth, "any", seed, h1 + h2)
+    if tier == "thorough":
+        q1, g1 = steps.start_texts("quick", "expr")
+        q2, g2 = steps.start_texts("quick", "eqn")
+        acc.merge(steps.run(V, q1[g1:] + q2[g2:], 2, "any", seed, 0, key="quickset"))
     small = (steps.small_texts("expr") + steps.small_texts("eqn")) if tier == "quick" else texts[h1 + h2:][::4]
     if tier == "quick":
         acc.merge(steps.run(V, small, 2, "any", seed, 0, key="small"))  # closure depth 2: the same rule objects see a tree and its rewrites
